@@ -169,13 +169,26 @@ fn check_free(c: &Case, ctx: &Ctx) -> Outcome {
         let mut exp: Vec<Vec<u8>> = m.sites.iter().map(|(_, al)| model::norm_column(al)).collect();
         exp.sort();
         if got != exp {
-            return Err(Outcome::Fail(format!("SNP columns (up to complement) {:?}, planted {:?}", got.iter().map(|x| lossy(x)).collect::<Vec<_>>(), exp.iter().map(|x| lossy(x)).collect::<Vec<_>>())));
+            let msg = format!("SNP columns (up to complement) {:?}, planted {:?}", got.iter().map(|x| lossy(x)).collect::<Vec<_>>(), exp.iter().map(|x| lossy(x)).collect::<Vec<_>>());
+            // recorded finding lo-high-m-incomplete-column: every column is a planted column in which
+            // some samples' bases are replaced by '-', within the allowed missing fraction
+            let m_allowed: f64 = m_arg(c.m_sel).map(|x| x.parse().unwrap()).unwrap_or(0.1);
+            if incomplete_only(&cols, &m.sites, m_allowed) && known_incomplete_finding() {
+                return Err(Outcome::Inconclusive(format!("KNOWN lo-high-m-incomplete-column: {msg}")));
+            }
+            return Err(Outcome::Fail(msg));
         }
         Ok(())
     })();
     ctx.done(&dir);
     match r {
         Err(Outcome::Fail(msg)) => Outcome::Fail(format!("{}: {msg}", describe(c, &m))),
+        Err(Outcome::Inconclusive(msg)) => {
+            if !ctx.replay {
+                KNOWN_INCOMPLETE.fetch_add(1, std::sync::atomic::Ordering::Relaxed);
+            }
+            Outcome::Inconclusive(format!("{}: {msg}", describe(c, &m)))
+        }
         Err(o) => o,
         Ok(()) => {
             let mut cl = vec![];
@@ -188,6 +201,44 @@ fn check_free(c: &Case, ctx: &Ctx) -> Outcome {
             pass(true, key_of(&(c.k, &m.fwd, c.threads, c.m_sel)), cl)
         }
     }
+}
+
+pub static KNOWN_INCOMPLETE: std::sync::atomic::AtomicU64 = std::sync::atomic::AtomicU64::new(0);
+
+pub fn known_incomplete_finding() -> bool {
+    let root = std::env::var("VERIF_ROOT").unwrap_or_else(|_| "/verif".into());
+    std::fs::read_to_string(std::path::Path::new(&root).join("known-findings.txt"))
+        .map(|t| t.lines().any(|l| l.starts_with("known: property=C17") && l.contains("id=lo-high-m-incomplete-column")))
+        .unwrap_or(false)
+}
+
+/// true iff the observed columns are exactly the planted columns (one each, either strand) except that
+/// in some of them samples are '-', never more than the allowed fraction, and at least one is incomplete
+pub fn incomplete_only(cols: &[Vec<u8>], sites: &[(usize, Vec<u8>)], m_allowed: f64) -> bool {
+    if cols.len() != sites.len() {
+        return false;
+    }
+    let mut used = vec![false; sites.len()];
+    let mut any_incomplete = false;
+    for g in cols {
+        let n = g.len() as f64;
+        let missing = g.iter().filter(|b| **b == b'-').count();
+        if missing as f64 / n > m_allowed + 1e-6 {
+            return false;
+        }
+        let hit = sites.iter().enumerate().position(|(i, (_, p))| {
+            !used[i]
+                && (g.iter().zip(p.iter()).all(|(a, b)| *a == b'-' || a == b) || g.iter().zip(p.iter()).all(|(a, b)| *a == b'-' || model::comp(*a) == *b))
+        });
+        match hit {
+            Some(i) => used[i] = true,
+            None => return false,
+        }
+        if missing > 0 {
+            any_incomplete = true;
+        }
+    }
+    any_incomplete
 }
 
 pub struct LoVcf {
@@ -450,6 +501,47 @@ fn stages(tier: Tier) -> Vec<Box<dyn Stage>> {
     ]
 }
 
+fn post(rt: &mut crate::engine::Runtime) {
+    // the saved reproducer of the recorded finding
+    let known = known_incomplete_finding();
+    let dir = rt.verif_root.join("notes").join("c17-lo-high-m");
+    let scratch = rt.scratch_root.join("c17-repro");
+    let _ = std::fs::create_dir_all(&scratch);
+    let mut shows = false;
+    if dir.join("s0.fa").exists() {
+        let ctx = Ctx { scratch: scratch.clone(), ska: rt.ska.clone(), tier: rt.tier, replay: false, counter: std::cell::Cell::new(0) };
+        for i in 0..4 {
+            let _ = std::fs::copy(dir.join(format!("s{i}.fa")), scratch.join(format!("s{i}.fa")));
+        }
+        let b = run_ska(&ctx, &scratch, &["build", "-k", "9", "-o", "x", "s0.fa", "s1.fa", "s2.fa", "s3.fa"]);
+        let o = run_ska(&ctx, &scratch, &["lo", "x.skf", "out", "-m", "0.4"]);
+        if b.ok() && o.ok() {
+            if let Ok(aln) = read_aln(&scratch.join("out_snps.fas")) {
+                shows = aln.iter().any(|(_, s)| s.contains(&b'-'));
+            }
+        }
+    }
+    let n = KNOWN_INCOMPLETE.load(std::sync::atomic::Ordering::Relaxed);
+    if let Some(s) = rt.stages.iter_mut().find(|s| s.name == "reference_free") {
+        s.extra.insert("generated_cases_in_known_finding_class".into(), json!(n));
+        s.extra.insert("saved_reproducer_still_shows".into(), json!(shows));
+    }
+    if shows || n > 0 {
+        if known {
+            rt.known_findings.push(format!(
+                "id=lo-high-m-incomplete-column subcommand=lo class=isolated-SNP-column-with-missing-samples-within--m: with an allowed missing fraction m such that m*samples >= 1, a planted site can be reported with a sample's true base replaced by '-' although the default -m reports it completely (saved reproducer notes/c17-lo-high-m shows it: {shows}; generated cases in this class: {n})"
+            ));
+        } else {
+            rt.violations.push(crate::engine::Violation {
+                stage: "reference_free".into(),
+                case: json!({"reproducer": "notes/c17-lo-high-m", "cmd": "ska lo x.skf out -m 0.4"}),
+                message: "ska lo -m 0.4 reports an isolated SNP with a sample's base replaced by '-' (complete with the default -m)".into(),
+                worker: 0,
+            });
+        }
+    }
+}
+
 pub fn def() -> PropDef {
     PropDef {
         id: "C17",
@@ -458,8 +550,9 @@ pub fn def() -> PropDef {
             "completeness is claimed only inside the isolation preconditions: unique (k-1)-mers, substitutions >= 2k apart and >= k from the sequence ends (a SNP closer to an end has no flanking node)",
             "with a reference only soundness is asserted (a SNP whose bubble cannot be positioned may be missing from the VCF)",
             "ska lo is observed through the CLI only (it calls process::exit and configures the global thread pool)",
+            "recorded finding lo-high-m-incomplete-column (known-findings.txt): columns that are planted columns with samples replaced by '-' within the allowed fraction are counted, not reported",
         ],
         stages,
-        post: None,
+        post: Some(post),
     }
 }
